@@ -192,3 +192,53 @@ def g_crosscheck(tier, seed, modes=("strict",), only_frames=False):
         for k in range(4):
             jobs.append((unit_crosscheck, ([t], seed * 31 + k, nf // 4, modes)))
     return jobs
+
+
+def unit_canaries():
+    """deliberately wrong variants of the specs must be refuted (vacuity guard for the trace comparison machinery)"""
+    from pyvc.harness import UnitResult
+    from checks import leaf as Lf, walkers as Wk
+    import z3
+
+    u = UnitResult("CANARY/decoder")
+    # (1) little-endian leaf spec
+    orig = Lf.be_int
+    try:
+        Lf.be_int = lambda bs, signed: orig(list(reversed(bs)), signed)
+        r = Lf.unit_leaf("UINT16", (), "strict")
+    finally:
+        Lf.be_int = orig
+    u.canaries.append({"name": "leaf spec with little-endian integers", "refuted": any(o["status"] == "refuted" for o in r.obligations)})
+    # (2) struct spec with the fields in reverse order
+    L0 = layout()
+    ent = L0["structs"]["TPMS_PCR_SELECTION"]
+    saved = list(ent["fields"])
+    try:
+        ent["fields"] = [saved[1], saved[0], saved[2]]
+        r = Wk.unit_tpms("TPMS_PCR_SELECTION", "strict")
+    finally:
+        ent["fields"] = saved
+    u.canaries.append({"name": "struct spec with two fields swapped", "refuted": any(o["status"] == "refuted" for o in r.obligations)})
+    # (3) TPM2B spec whose body is decoded with the wrong element type
+    ent = L0["tpm2b"]["TPM2B_DIGEST"]
+    saved = [dict(f) for f in ent["fields"]]
+    try:
+        ent["fields"][1]["type"] = "list[UINT16]"
+        r = Wk.unit_tpm2b("TPM2B_DIGEST", "strict")
+    finally:
+        ent["fields"] = saved
+    u.canaries.append({"name": "size-prefixed spec with the wrong body type", "refuted": any(o["status"] == "refuted" for o in r.obligations)})
+    # (4) command spec with handle and parameter areas swapped
+    ent = L0["commands"]["Create"]
+    saved = (ent["cmd_handles"], ent["cmd_params"])
+    try:
+        import checks.walkers as W2
+        reg, areas = W2.registry()
+        a, b = areas[("cmd_handles", "Create")], areas[("cmd_params", "Create")]
+        areas[("cmd_handles", "Create")], areas[("cmd_params", "Create")] = b, a
+        r = Wk.unit_command("Create", "strict")
+    finally:
+        areas[("cmd_handles", "Create")], areas[("cmd_params", "Create")] = a, b
+    u.canaries.append({"name": "command spec with handle and parameter areas swapped", "refuted": any(o["status"] == "refuted" for o in r.obligations)})
+    u.obligations.append({"name": "CANARY/decoder/ran", "kind": "bounded-bookkeeping", "site": "", "status": "proved", "backend": "bookkeeping", "seconds": 0, "model": None, "detail": "4 canaries"})
+    return u
